@@ -6,6 +6,7 @@ from ttvc.symex import VOpt, VStr, VRec, VSeq, VArr, VFunc, VTuple, VRef, VList,
 from ttvc import models as M, theory as T, rnd as R
 from ttvc import mx_opt as X
 from contracts import spec as S
+from contracts.transformation import orthL, orthR
 
 IA, IM = X.IA, X.IM
 SRow, Block = X.SRow, X.Block
@@ -397,3 +398,580 @@ def u_lhs_bounds(U):
             U.post('integer-array-of-shape-(m,d)', p,
                    z3.And(Z(I.shape[0]) == m, Z(I.shape[1]) == d, z3.BoolVal(I.dtype == 'i')) if isinstance(I, VArr) and I.ndim == 2 else False)
         U.canary(f'{nm}: canary-unreachable', U.pre, False)
+
+
+# ==============================================================================================
+# utils._range, element level (the unit utils._range of contracts/misc.py is shape level): the column 0, 1, .., n-1
+
+@unit('utils._range.elements', props=('C15',))
+def u_range_elems(U):
+    fn = U.func('utils', '_range')
+    ex = U.executor(fn)
+    ex.opt = True
+    st = U.state()
+    n = z3.Int('n')
+    st.vars.update(n=n)
+    res = U.run(ex, st, pre=[n >= 1])
+    U.cover('precondition-satisfiable', U.pre)
+    for p, o in res:
+        v = p.deref(o.value) if o.kind == 'return' else None
+        ok = X.is_imat(v)
+        U.post('returns-an-integer-matrix-with-element-level-rows', p, z3.BoolVal(bool(ok)))
+        if ok:
+            U.post('integer-column-of-shape-(n,1)', p, z3.And(z3.BoolVal(v.dtype == 'i'), Z(v.shape[0]) == n, Z(v.shape[1]) == 1))
+            U.post('entry-i-is-i', p, z3.Implies(z3.And(0 <= t_, t_ < n), v.rows[t_][0] == t_))
+            U.canary('canary-all-zero', p, z3.Implies(z3.And(0 <= t_, t_ < n), v.rows[t_][0] == 0))
+
+
+def call_range_elems(ex, st, args, kwargs, node):
+    """teneva._range(n) by contract (unit utils._range.elements)"""
+    if kwargs or len(args) != 1 or not M.is_intsort(args[0]):
+        raise M.Unsupported('_range calling pattern')
+    n = Z(args[0])
+    ex.oblige(st, 'call-pre', '_range: n >= 1', n >= 1, node)
+    rows = ex.fresh('range', IM)
+    st.assume(z3.ForAll([t_], z3.Implies(z3.And(0 <= t_, t_ < n), rows[t_][0] == t_), patterns=[rows[t_]]))
+    out = X.imat(rows, args[0], 1)
+    out.iota = True
+    return out
+
+
+# ==============================================================================================
+# optima.optima_tt_beam  (C15: "multi-indices inside the tensor bounds"; mechanism "beam search over partial products of the orthogonalised
+# tensor keeping the k rows of largest norm, index table extended by Kronecker products"; why_tests_cant: "a wrong index bookkeeping in the
+# beam (Kronecker order of old and new indices) still returns a valid-looking index whose value is simply not the optimum")
+#
+# Element level, for every well-formed Y (d >= 2), k >= 1, both sweep directions, ret_all in {False, True}, to_orth=True:
+#   * after t modes the index table I has t columns and c >= 1 rows (c <= k from the second mode on); row s is a valid multi-index
+#     PREFIX (left-to-right: modes 0..t-1) resp. SUFFIX (right-to-left: modes d-t..d-1):  0 <= I[s, col] < n_mode(col);
+#   * LAYOUT CONSISTENCY: row s of Q (column s for the right-to-left sweep) is  sc * (product of the slices of the orthogonalised tensor
+#     selected by row s of I)  with one common factor sc - i.e. the np.kron / np.hstack assembly of I enumerates (old candidate, new mode
+#     index) in the same order as the C-order reshape of the einsum result, and the top-k selection gathers I and Q with the same
+#     positions.  (chain / ichain of the theory; the scale factor is carried as a ghost value sc' = 2^p0 * sc.)
+#   * the selection keeps min(k, c * n) candidates (distinct positions, all of them row numbers of the extended table);
+#   * the result is one multi-index of length d inside the bounds of the tensor the caller passed (ret_all: a (c, d) table, 1 <= c <= k);
+#   * to_orth=True: the in-place scalings `Q *= ..` act on a reshape of a core of the list returned by orthogonalize, the argument list
+#     is not modified.
+# Not covered: WHICH candidates are kept (the norms / argsort values are not interpreted: bounded suite C15), sc > 0, to_orth=False (there
+# the first `Q *= ..` writes through a view into the caller's first core - the business of frames / C09), d = 1.
+
+AXB = T.axioms('shape', 'mulI', 'chain', 'ichain', 'smulr', 'qdm')
+_Yq = z3.Const('Y!q', T.TT)
+_x1, _x2 = z3.Const('ix1!q', T.IDX), z3.Const('ix2!q', T.IDX)
+_kq, _cq, _o1, _o2, _lq, _hq = z3.Ints('k!q c!q o1!q o2!q lo!q hi!q')
+# agreement lemmas (proved by induction in unit optima.optima_tt_beam.lemmas): the products only depend on the index entries they read
+AGREE_L = z3.ForAll([_Yq, _x1, _x2, _kq],
+                    z3.Implies(z3.And(_kq >= 0, z3.ForAll([_cq], z3.Implies(z3.And(0 <= _cq, _cq <= _kq), _x1[_cq] == _x2[_cq]))),
+                               T.chain(_Yq, _x1, _kq) == T.chain(_Yq, _x2, _kq)),
+                    patterns=[z3.MultiPattern(T.chain(_Yq, _x1, _kq), T.chain(_Yq, _x2, _kq))])
+AGREE_R = z3.ForAll([_Yq, _x1, _x2, _o1, _o2, _lq, _hq],
+                    z3.Implies(z3.And(_lq >= 0, _lq <= _hq, _lq - _o1 >= 0, _lq - _o2 >= 0,
+                                      z3.ForAll([_cq], z3.Implies(z3.And(_lq <= _cq, _cq <= _hq), _x1[_cq - _o1] == _x2[_cq - _o2]))),
+                               X.ichain(_Yq, _x1, _o1, _lq, _hq) == X.ichain(_Yq, _x2, _o2, _lq, _hq)),
+                    patterns=[z3.MultiPattern(X.ichain(_Yq, _x1, _o1, _lq, _hq), X.ichain(_Yq, _x2, _o2, _lq, _hq))])
+
+
+@unit('optima.optima_tt_beam.lemmas', props=('C15',))
+def u_beam_lemmas(U):
+    """The two agreement lemmas, for arbitrary tensors and index vectors (constants), by induction over the length of the product."""
+    Y, a, b = z3.Const('Y', T.TT), z3.Const('ia', T.IDX), z3.Const('ib', T.IDX)
+    k, c, o1, o2, lo, hi = z3.Ints('k c o1 o2 lo hi')
+    AX = T.axioms('chain', 'ichain')
+    agree = lambda upto: z3.ForAll([c], z3.Implies(z3.And(0 <= c, c <= upto), a[c] == b[c]), patterns=[a[c]])
+    U.lemma('left-product-depends-only-on-the-entries-0..k.base', [agree(z3.IntVal(0))], T.chain(Y, a, 0) == T.chain(Y, b, 0), axioms=AX, kind='lemma-base')
+    U.lemma('left-product-depends-only-on-the-entries-0..k.step', [k >= 1, agree(k), T.chain(Y, a, k - 1) == T.chain(Y, b, k - 1)],
+            T.chain(Y, a, k) == T.chain(Y, b, k), axioms=AX, kind='lemma-step')
+    agr = lambda frm: z3.ForAll([c], z3.Implies(z3.And(frm <= c, c <= hi), a[c - o1] == b[c - o2]), patterns=[a[c - o1]])
+    dom = [hi - o1 >= 0, hi - o2 >= 0]
+    U.lemma('interval-product-depends-only-on-the-entries-it-reads.base', dom + [agr(hi), a[hi - o1] == b[hi - o2]],
+            X.ichain(Y, a, o1, hi, hi) == X.ichain(Y, b, o2, hi, hi), axioms=AX, kind='lemma-base')
+    U.lemma('interval-product-depends-only-on-the-entries-it-reads.step',
+            [lo >= 0, lo < hi, lo - o1 >= 0, lo - o2 >= 0, agr(lo), a[lo - o1] == b[lo - o2], X.ichain(Y, a, o1, lo + 1, hi) == X.ichain(Y, b, o2, lo + 1, hi)],
+            X.ichain(Y, a, o1, lo, hi) == X.ichain(Y, b, o2, lo, hi), axioms=AX, kind='lemma-step')
+    U.cover('axioms-consistent', [k >= 1], axioms=AX)
+    U.canary('canary-products-of-different-lengths-agree', [k >= 1], T.chain(Y, a, k) == T.chain(Y, a, k - 1), axioms=AX)
+
+
+def _beam_unit(U, l2r, ret_all):
+    fn = U.func('optima', 'optima_tt_beam')
+    AX = AXB + [AGREE_L if l2r else AGREE_R]
+    st = U.state()
+    Y, arr, d = S.tt_param(st, 'Y', z3.Int('d'))
+    k = z3.Int('k')
+    s_, col = z3.Ints('s!b col!b')
+
+    def tables(s):
+        I, Q, Zs = s.vars.get('I'), s.vars.get('Q'), s.deref(s.vars.get('Z'))
+        if not (X.is_imat(I) and X.is_qvecs(Q) and Q.axis == (0 if l2r else 1) and isinstance(Zs, VSeq) and Zs.tag == 'core'):
+            raise M.ContractMismatch('optima_tt_beam: I / Q / Z are not the index table, the candidate matrix and the orthogonalised list')
+        return I, Q, Zs
+
+    def mode_of(col_, j):
+        """the tensor mode that column col_ of I belongs to after j completed iterations"""
+        return col_ if l2r else d - 1 - j + col_
+
+    def product(Zarr, row, j):
+        return T.chain(Zarr, row, j) if l2r else X.ichain(Zarr, row, d - 1 - j, d - 1 - j, d - 1)
+
+    def inv(ex, s, j):
+        I, Q, Zs = tables(s)
+        c = Z(I.shape[0])
+        sc = s.ghost.get('sc')
+        if sc is None:
+            sc = s.ghost['sc'] = T.pow2r(M.to_real(s.vars['p0']))          # before the loop: Q was scaled once
+        bond = T.d2(Zs.arr[j]) if l2r else T.d0(Zs.arr[d - 1 - j])
+        return [('table-shapes: one row of I and one vector of Q per candidate, one column of I per processed mode',
+                 z3.And(c >= 1, Z(I.shape[1]) == j + 1, Z(Q.shape[0 if l2r else 1]) == c, Z(Q.shape[1 if l2r else 0]) == bond)),
+                ('at-most-k-candidates-from-the-second-mode-on', z3.Implies(j >= 1, c <= k)),
+                ('rows-of-I-are-valid-multi-index-prefixes (suffixes for the right-to-left sweep)',
+                 z3.ForAll([s_, col], z3.Implies(z3.And(0 <= s_, s_ < c, 0 <= col, col <= j),
+                                                 z3.And(0 <= I.rows[s_][col], I.rows[s_][col] < T.d1(Zs.arr[mode_of(col, j)]))), patterns=[I.rows[s_][col]])),
+                ('layout-consistency: vector s of Q is the (scaled) product of the slices selected by row s of I',
+                 z3.ForAll([s_], z3.Implies(z3.And(0 <= s_, s_ < c), Q.vecs[s_] == T.smul(sc, product(Zs.arr, I.rows[s_], j))), patterns=[Q.vecs[s_]]))]
+
+    def havoc_hook(ex, h, pre, j):
+        c, w, r = ex.fresh_int('c'), ex.fresh_int('w'), ex.fresh_int('r')
+        h.assume(c >= 0, w >= 0, r >= 0)
+        h.vars['I'] = X.imat(ex.fresh('I', IM), c, w)
+        h.vars['Q'] = X.qvecs((c, r) if l2r else (r, c), ex.fresh('Q', X.MatA), 0 if l2r else 1)
+        h.ghost['sc'] = ex.fresh_real('sc')
+
+    def body_end(ex, s, o, j):
+        if o.kind not in ('normal', 'continue'):
+            return
+        I, Q, Zs = tables(s)
+        # the statements of one pass, read back from the provenance of the final values: Q = (gathered Q) [* 2^p0], I = gathered I
+        src = getattr(Q, 'scaled_from', None) or Q
+        gq, gi = getattr(src, 'gathered', None), getattr(I, 'gathered', None)
+        if gq is None or gi is None:
+            raise M.ContractMismatch('optima_tt_beam: a pass does not end with the gathered tables I[ind, :] and Q[ind, :] / Q[:, ind]')
+        ex.oblige(s, 'post', 'I-and-Q-are-gathered-with-the-same-positions', z3.BoolVal(gq[1] is gi[1]), None, assume=False)
+        ext = Z(gi[0].shape[0])
+        ex.oblige(s, 'post', 'selection-keeps-min(k, number of extended candidates)', Z(I.shape[0]) == z3.If(k < ext, k, ext), None, assume=False)
+        if src is not Q:
+            s.ghost['sc'] = T.rmul(Q.factor, s.ghost['sc'])
+        # the same statement as the layout invariant, read off the decoding maps of the two assemblies (a cheap syntactic cross-check)
+        hp, qmap = getattr(gi[0], 'hparts', None), getattr(gq[0], 'qmap', None)
+        if hp is not None and qmap is not None and all(getattr(x, 'rowmap', None) is not None for x in hp):
+            u = z3.Int('u!b')
+            cand = [x.rowmap[0](u) for x in hp if not getattr(x.rowmap[1], 'iota', False)]
+            mode = [x.rowmap[0](u) for x in hp if getattr(x.rowmap[1], 'iota', False)]
+            ex.oblige(s, 'post', 'np.kron-assembly-of-I-enumerates-(candidate, mode index)-in-the-order-of-the-reshape-of-Q',
+                      z3.And(z3.BoolVal(len(cand) == 1 and len(mode) == 1), *([cand[0] == qmap[0](u), mode[0] == qmap[1](u)] if len(cand) == 1 and len(mode) == 1 else [])),
+                      None, assume=False)
+        if not l2r:
+            # proof hint (a definition, no new fact): names the product over the OLD modes along the NEW rows, so that the two-term patterns of
+            # the recursion axiom of ichain and of the agreement lemma find it
+            aux = ex.fresh('tailprod', X.MatA)
+            s.assume(z3.ForAll([s_], aux[s_] == X.ichain(Zs.arr, I.rows[s_], d - 1 - (j + 1), d - 1 - j, d - 1), patterns=[I.rows[s_]]))
+
+    ex = U.executor(fn, loops={0: {'inv': inv, 'havoc_hook': havoc_hook, 'body_end': body_end}}, callees={'utils._range': call_range_elems}, axioms=AX)
+    ex.opt, ex.opt_axis, ex.mode = True, (0 if l2r else 1), 'ematch'
+    st.vars.update(Y=Y, k=k, l2r=l2r, ret_all=ret_all, to_orth=True, p=NONE)
+    res = U.run(ex, st, pre=[T.wf(arr, d), k >= 1])
+    U.assumed.extend(['transformation.orthogonalize (unit transformation.orthogonalize.stab)', 'utils._range (unit utils._range.elements)',
+                      'agreement lemmas (unit optima.optima_tt_beam.lemmas)'])
+    U.cover('precondition-satisfiable', U.pre, axioms=AX)
+    for p, o in res:
+        if o.kind != 'return':
+            U.post('no-exception', p, False, axioms=AX, mode='ematch')
+            continue
+        v = p.deref(o.value)
+        Zs = p.deref(p.vars['Z'])
+        U.post('argument-list-is-not-modified', p, z3.BoolVal(p.heap[Y.oid].arr is arr and p.heap[Y.oid].n is d and Zs is not p.heap[Y.oid]))
+        zn = p.ghost.get('orth_result')
+        U.post('the-sweep-runs-over-the-list-returned-by-orthogonalize (a fresh list, not the argument)', p,
+               z3.BoolVal(zn is not None and Zs.arr is zn and not z3.eq(zn, arr)))
+        I, Q, _ = tables(p)
+        U.post('the-sweep-starts-at-the-pivot-of-the-orthogonalisation: every other core is orthonormal towards it (hypothesis of L-ORTHNORM)', p,
+               z3.Implies(z3.And(0 < s_, s_ < d), orthR(Zs.arr[s_])) if l2r else z3.Implies(z3.And(0 <= s_, s_ < d - 1), orthL(Zs.arr[s_])), axioms=AX, mode='ematch')
+        if ret_all:
+            ok = X.is_imat(v) and v is I
+            U.post('returns-the-whole-index-table', p, z3.BoolVal(bool(ok)))
+            if not ok:
+                continue
+            U.post('table-of-shape-(c,d)-with-1<=c<=k', p, z3.And(Z(v.shape[1]) == d, Z(v.shape[0]) >= 1, Z(v.shape[0]) <= k), axioms=AX, mode='ematch')
+            ent = v.rows[s_][col]
+            dom = z3.And(0 <= s_, s_ < Z(v.shape[0]), 0 <= col, col < d)
+        else:
+            ok = isinstance(v, VArr) and v.ndim == 1 and v.tag == 'ivec' and getattr(v, 'src', None) is not None and v.src[0] is I.rows
+            U.post('returns-one-row-of-the-index-table', p, z3.BoolVal(bool(ok)))
+            if not ok:
+                continue
+            U.post('it-is-the-first-row (best candidate first)', p, v.src[1] == 0)
+            U.post('multi-index-of-length-d', p, Z(v.shape[0]) == d, axioms=AX, mode='ematch')
+            ent = v.t[col]
+            dom = z3.And(0 <= col, col < d)
+        U.post('every-index-lies-inside-the-mode-of-the-tensor-that-was-passed', p, z3.Implies(dom, z3.And(0 <= ent, ent < T.d1(arr[col]))), axioms=AX, mode='ematch')
+        sc = p.ghost['sc']
+        full = T.chain(Zs.arr, I.rows[s_], d - 1) if l2r else X.ichain(Zs.arr, I.rows[s_], 0, 0, d - 1)
+        U.post('final-layout-consistency: vector s of Q is sc * (product of ALL slices of the orthogonalised tensor at row s of I)', p,
+               z3.Implies(z3.And(0 <= s_, s_ < Z(I.shape[0])), Q.vecs[s_] == T.smul(sc, full)), axioms=AX, mode='ematch')
+        U.canary('canary-first-index-is-zero', p, z3.Implies(dom, ent == 0), axioms=AX)
+
+
+for _l2r in (True, False):
+    for _ra in (False, True):
+        def _mk3(l2r=_l2r, ra=_ra):
+            @unit(f'optima.optima_tt_beam.{"l2r" if l2r else "r2l"}.{"all" if ra else "best"}', props=('C15',))
+            def u(U):
+                _beam_unit(U, l2r, ra)
+        _mk3()
+
+
+# ==============================================================================================
+# optima.optima_tt_max / optima.optima_tt, index level  (C15 "multi-indices inside the tensor bounds together with values that equal the
+# tensor entries at those indices").  The units of contracts/optima.py treat indices as abstract objects; here they are integer vectors and
+# the beam is used through the contract proved above (a multi-index of length d inside the bounds of the tensor it was given).
+
+from contracts.act import val as tt_val      # noqa: E402   val(Y, i) = chain(Y, i, d-1)[0, 0]  (unit act_one.get)
+
+AXV = T.axioms('shape', 'mulI')
+
+
+def _tt(st, v, what):
+    v = st.deref(v)
+    if not (isinstance(v, VSeq) and v.tag == 'core'):
+        raise M.Unsupported(f'{what}: expected a TT list')
+    return v
+
+
+def _ivec(st, v, what):
+    v = st.deref(v)
+    if not (isinstance(v, VArr) and v.ndim == 1 and v.tag == 'ivec' and v.t is not None and not callable(v.t)):
+        raise M.Unsupported(f'{what}: expected an integer vector')
+    return v
+
+
+def valid_index(ix, arr, d):
+    return z3.ForAll([c_], z3.Implies(z3.And(0 <= c_, c_ < d), z3.And(0 <= ix[c_], ix[c_] < T.d1(arr[c_]))), patterns=[ix[c_]])
+
+
+def call_get_val(ex, st, args, kwargs, node):
+    """teneva.get(Y, i) by contract (unit act_one.get): for a well-formed Y and a multi-index inside its bounds the entry val(Y, i)."""
+    if kwargs or len(args) != 2:
+        raise M.Unsupported('get calling pattern')
+    Ys, i = _tt(st, args[0], 'get'), _ivec(st, args[1], 'get')
+    ex.oblige(st, 'call-pre', 'get: well-formed tensor, one index per mode, every index inside its mode',
+              z3.And(T.wf(Ys.arr, Ys.n), Z(i.shape[0]) == Ys.n, valid_index(i.t, Ys.arr, Ys.n)), node)
+    st.ghost['get_calls'] = st.ghost.get('get_calls', []) + [(Ys, i)]
+    return tt_val(Ys.arr, i.t, Ys.n)
+
+
+def _fresh_index(ex, st, Ys, name):
+    ix = ex.fresh(name, IA)
+    st.assume(valid_index(ix, Ys.arr, Ys.n))
+    out = X.ivec(Ys.n, ix)
+    out.index_of = Ys
+    return out
+
+
+def call_beam(ex, st, args, kwargs, node):
+    """optima_tt_beam(Y, k, l2r=..) with ret_all=False, to_orth=True (units optima.optima_tt_beam.l2r.best / .r2l.best)."""
+    if len(args) != 2 or set(kwargs) - {'l2r'} or not isinstance(kwargs.get('l2r', True), bool) or not M.is_intsort(args[1]):
+        raise M.Unsupported('optima_tt_beam calling pattern')
+    Ys = _tt(st, args[0], 'optima_tt_beam')
+    ex.oblige(st, 'call-pre', 'optima_tt_beam: well-formed tensor and k >= 1', z3.And(T.wf(Ys.arr, Ys.n), Z(args[1]) >= 1), node)
+    out = _fresh_index(ex, st, Ys, 'beam')
+    st.ghost['beam_calls'] = st.ghost.get('beam_calls', []) + [dict(Y=Ys, k=args[1], l2r=kwargs.get('l2r', True), out=out)]
+    return out
+
+
+@unit('optima.optima_tt_max.bounds', props=('C15',))
+def u_tt_max_bounds(U):
+    fn = U.func('optima', 'optima_tt_max')
+    ex = U.executor(fn, callees={'optima.optima_tt_beam': call_beam, 'act_one.get': call_get_val}, axioms=AXV)
+    ex.opt = True
+    st = U.state()
+    Y, arr, d = S.tt_param(st, 'Y', z3.Int('d'))
+    k = z3.Int('k')
+    st.vars.update(Y=Y, k=k)
+    res = U.run(ex, st, pre=[T.wf(arr, d), k >= 1])
+    U.assumed.extend(['optima.optima_tt_beam (units optima.optima_tt_beam.*.best)', 'act_one.get (unit act_one.get)'])
+    U.cover('precondition-satisfiable', U.pre, axioms=AXV)
+    for p, o in res:
+        if o.kind != 'return':
+            U.post('no-exception', p, False, axioms=AXV)
+            continue
+        calls = p.ghost.get('beam_calls', [])
+        okc = len(calls) == 2 and all(z3.eq(c['Y'].arr, arr) and c['k'] is k for c in calls) and sorted(c['l2r'] for c in calls) == [False, True]
+        U.post('one-sweep-per-direction-over-the-given-tensor-with-the-given-k', p, z3.BoolVal(okc))
+        ok = isinstance(o.value, VTuple) and len(o.value.items) == 2 and isinstance(o.value.items[0], VArr) and M.is_num(o.value.items[1])
+        U.post('returns-(index, value)', p, z3.BoolVal(ok))
+        if not (ok and okc):
+            continue
+        i, y = o.value.items
+        U.post('the-index-is-the-result-of-one-of-the-two-sweeps', p, z3.BoolVal(any(i is c['out'] for c in calls)))
+        U.post('multi-index-of-length-d-inside-the-bounds-of-the-tensor', p, z3.And(Z(i.shape[0]) == d, valid_index(i.t, arr, d)), axioms=AXV)
+        U.post('reported-value-is-the-entry-at-the-reported-index', p, Z(y) == tt_val(arr, i.t, d), axioms=AXV)
+    U.canary('canary-unreachable', U.pre, False, axioms=AXV)
+
+
+def call_tt_max(ex, st, args, kwargs, node):
+    """optima_tt_max(Y, k) by contract (unit optima.optima_tt_max.bounds)"""
+    if kwargs or len(args) != 2 or not M.is_intsort(args[1]):
+        raise M.Unsupported('optima_tt_max calling pattern')
+    Ys = _tt(st, args[0], 'optima_tt_max')
+    ex.oblige(st, 'call-pre', 'optima_tt_max: well-formed tensor and k >= 1', z3.And(T.wf(Ys.arr, Ys.n), Z(args[1]) >= 1), node)
+    out = _fresh_index(ex, st, Ys, 'imax')
+    st.ghost['max_calls'] = st.ghost.get('max_calls', []) + [dict(Y=Ys, k=args[1], out=out)]
+    return VTuple([out, tt_val(Ys.arr, out.t, Ys.n)])
+
+
+def _same_modes(new, old, d):
+    return z3.ForAll([c_], z3.Implies(z3.And(0 <= c_, c_ < d), T.d1(new[c_]) == T.d1(old[c_])), patterns=[new[c_]])
+
+
+def call_const_shape(ex, st, args, kwargs, node):
+    """teneva.const(n, v) (unit tensors.const.plain): d = len(n) rank-one cores of the requested mode sizes"""
+    if kwargs or len(args) != 2:
+        raise M.Unsupported('const calling pattern')
+    nv = _ivec(st, args[0], 'const')
+    ex.need_num(st, args[1], node)
+    d = Z(nv.shape[0])
+    ex.oblige(st, 'call-pre', 'const: at least two modes of size >= 1',
+              z3.And(d >= 2, z3.ForAll([c_], z3.Implies(z3.And(0 <= c_, c_ < d), nv.t[c_] >= 1), patterns=[nv.t[c_]])), node)
+    new = ex.fresh('Const', T.TT)
+    st.assume(z3.ForAll([c_], z3.Implies(z3.And(0 <= c_, c_ < d), z3.And(T.d0(new[c_]) == 1, T.d1(new[c_]) == nv.t[c_], T.d2(new[c_]) == 1)), patterns=[new[c_]]))
+    return st.alloc(VSeq(new, d, M.mk_core, 'core'))
+
+
+def _call_binary(name, unitname):
+    def h(ex, st, args, kwargs, node):
+        if kwargs or len(args) != 2:
+            raise M.Unsupported(f'{name} calling pattern')
+        A, B = _tt(st, args[0], name), _tt(st, args[1], name)
+        ex.oblige(st, 'call-pre', f'{name}: two well-formed tensors of the same shape',
+                  z3.And(T.wf(A.arr, A.n), T.wf(B.arr, B.n), A.n == B.n, _same_modes(A.arr, B.arr, A.n)), node)
+        new = ex.fresh(name.capitalize(), T.TT)
+        st.assume(T.wf(new, A.n), _same_modes(new, A.arr, A.n))
+        return st.alloc(VSeq(new, A.n, M.mk_core, 'core'))
+    h.__doc__ = f'teneva.{name}(Y1, Y2) for two TT-tensors, shape level (unit {unitname}): a fresh well-formed tensor with the same mode sizes'
+    return h
+
+
+@unit('optima.optima_tt.bounds', props=('C15',))
+def u_tt_bounds(U):
+    fn = U.func('optima', 'optima_tt')
+    ex = U.executor(fn, callees={'optima.optima_tt_max': call_tt_max, 'act_one.get': call_get_val, 'tensors.const': call_const_shape,
+                                 'act_two.sub': _call_binary('sub', 'act_two.sub.tt_tt'), 'act_two.mul': _call_binary('mul', 'act_two.mul.tt_tt')}, axioms=AXV)
+    ex.opt = True
+    st = U.state()
+    Y, arr, d = S.tt_param(st, 'Y', z3.Int('d'))
+    k = z3.Int('k')
+    st.vars.update(Y=Y, k=k)
+    res = U.run(ex, st, pre=[T.wf(arr, d), k >= 1])
+    U.assumed.extend(['optima.optima_tt_max (unit optima.optima_tt_max.bounds)', 'act_one.get (unit act_one.get)', 'props.shape (unit props.shape)',
+                      'tensors.const (unit tensors.const.plain)', 'act_two.sub (unit act_two.sub.tt_tt)', 'act_two.mul (unit act_two.mul.tt_tt)'])
+    U.cover('precondition-satisfiable', U.pre, axioms=AXV)
+    for p, o in res:
+        if o.kind != 'return':
+            U.post('no-exception', p, False, axioms=AXV)
+            continue
+        v = o.value
+        ok = isinstance(v, VTuple) and len(v.items) == 4 and all(isinstance(v.items[j], VArr) for j in (0, 2)) and all(M.is_num(v.items[j]) for j in (1, 3))
+        U.post('returns-(i_min, y_min, i_max, y_max)', p, z3.BoolVal(ok))
+        if not ok:
+            continue
+        i_min, y_min, i_max, y_max = v.items
+        for nm, i, y in (('minimum', i_min, y_min), ('maximum', i_max, y_max)):
+            U.post(f'index-of-the-{nm}-has-length-d-and-lies-inside-the-bounds-of-the-tensor', p, z3.And(Z(i.shape[0]) == d, valid_index(i.t, arr, d)), axioms=AXV)
+            U.post(f'reported-{nm}-is-the-entry-of-the-given-tensor-at-its-index', p, Z(y) == tt_val(arr, i.t, d), axioms=AXV)
+        U.post('reported-minimum-does-not-exceed-reported-maximum', p, Z(y_min) <= Z(y_max), axioms=AXV)
+        mc = p.ghost.get('max_calls', [])
+        U.post('first-search-on-the-given-tensor-second-on-the-squared-shifted-one-both-with-k', p,
+               z3.BoolVal(len(mc) == 2 and z3.eq(mc[0]['Y'].arr, arr) and not z3.eq(mc[1]['Y'].arr, arr) and all(c['k'] is k for c in mc)))
+    U.canary('canary-unreachable', U.pre, False, axioms=AXV)
+
+
+# ==============================================================================================
+# optima.optima_qtt  (C15 "the quantised variant agrees after mapping indices back"; here: WHAT is returned, as a relation over the callee
+# contracts).  For every well-formed Y with all mode sizes 2^q (q >= 1), k >= 1, e >= 0, r >= 0:
+#   * no exception; the conversion is tt_to_qtt(Y, e, r) with the caller's e and r, the search is optima_tt(Z, k) on the converted tensor
+#     with the caller's k, both indices come back through ind_qtt_to_tt(., q) with q = int(log2 n) = log2 n;
+#   * both returned multi-indices have length d and lie inside the bounds of the ORIGINAL tensor: component c is the binary value of q
+#     binary digits, hence in [0, 2^q) (lemma binary-value-of-q-digits-is-below-2^q, induction over the digits);
+#   * both reported values are get(Y, index) on the tensor the CALLER passed (not on the QTT approximation): true entries at the
+#     reported indices, whatever the truncation accuracy e was;
+#   * the reported minimum does not exceed the reported maximum: optima_tt orders the entries of the QTT approximation Z, the values are
+#     re-evaluated on Y, and the final swap `if y_min > y_max` restores the order where an inexact conversion flipped it (without that
+#     swap - the tree before the C15 repair - the post `reported-minimum-does-not-exceed-reported-maximum` is not provable).
+# For every well-formed Y with mode sizes >= 2: ValueError is the only exception; it is raised if the mode sizes differ or the common size is
+# not 2^int(log2 n); if the call returns, all mode sizes equal 2^q.
+# Not covered: mode size 1 = 2^0 (passes the shape test and then fails inside tt_to_qtt with a reshape error - outside "q >= 1" of the
+# conversion contract), WHICH entries are found / agreement with optima_tt on Y (bounded suite C15).
+
+from ttvc import mx_qtt as XQ                # noqa: E402   hval (theory group 'hval')
+from contracts.qtt import lemma_log2_of_pow2, log2_int     # noqa: E402
+
+AXQT = T.axioms('shape', 'mulI', 'hval', 'pow2')
+hval = XQ.hval
+b_ = z3.Int('b!s')
+
+
+def binary(a, q):
+    return z3.ForAll([b_], z3.Implies(z3.And(0 <= b_, b_ < q), z3.And(0 <= a[b_], a[b_] <= 1)), patterns=[a[b_]])
+
+
+def _qtt_handlers(qterm_of):
+    def call_tt_to_qtt(ex, st, args, kwargs, node):
+        """tt_to_qtt(Y, e, r) (unit act_one.tt_to_qtt): a fresh well-formed list of d*q cores of mode size 2"""
+        if kwargs or len(args) != 3:
+            raise M.Unsupported('tt_to_qtt calling pattern')
+        Ys = _tt(st, args[0], 'tt_to_qtt')
+        q = qterm_of(st)
+        e, r = M.to_real(ex.need_num(st, args[1], node)), M.to_real(ex.need_num(st, args[2], node))
+        ex.oblige(st, 'call-pre', 'tt_to_qtt: well-formed tensor, q >= 1, e >= 0, r >= 0', z3.And(T.wf(Ys.arr, Ys.n), q >= 1, e >= 0, r >= 0), node)
+        ex.oblige(st, 'call-pre', 'tt_to_qtt: all mode sizes are 2^q',
+                  z3.ForAll([c_], z3.Implies(z3.And(0 <= c_, c_ < Ys.n), T.d1(Ys.arr[c_]) == T.pow2(q)), patterns=[Ys.arr[c_]]), node)
+        new = ex.fresh('Zqtt', T.TT)
+        ln = T.mul_canon(Ys.n, q)
+        st.assume(T.wf(new, ln), z3.ForAll([c_], z3.Implies(z3.And(0 <= c_, c_ < ln), T.d1(new[c_]) == 2), patterns=[new[c_]]))
+        st.ghost['qtt_conv'] = st.ghost.get('qtt_conv', []) + [dict(Y=Ys, e=e, r=r, q=q, d=Ys.n, out=new)]
+        return st.alloc(VSeq(new, ln, M.mk_core, 'core'))
+
+    def call_optima_tt(ex, st, args, kwargs, node):
+        """optima_tt(Z, k) (units optima.optima_tt, optima.optima_tt.bounds)"""
+        if kwargs or len(args) != 2 or not M.is_intsort(args[1]):
+            raise M.Unsupported('optima_tt calling pattern')
+        Zs = _tt(st, args[0], 'optima_tt')
+        ex.oblige(st, 'call-pre', 'optima_tt: well-formed tensor and k >= 1', z3.And(T.wf(Zs.arr, Zs.n), Z(args[1]) >= 1), node)
+        i1, i2 = _fresh_index(ex, st, Zs, 'imin'), _fresh_index(ex, st, Zs, 'imax')
+        y1, y2 = tt_val(Zs.arr, i1.t, Zs.n), tt_val(Zs.arr, i2.t, Zs.n)
+        st.assume(y1 <= y2)
+        st.ghost['search'] = st.ghost.get('search', []) + [dict(Z=Zs, k=args[1], out=(i1, i2))]
+        return VTuple([i1, y1, i2, y2])
+
+    def call_ind_qtt_to_tt(ex, st, args, kwargs, node):
+        """ind_qtt_to_tt(i, q) for one multi-index (unit grid.ind_qtt_to_tt.single): component c is the binary value hval(block c, 0, q) of the
+        q digits of block c (here only: SOME q binary digits - the link to the positions q*c + b of the argument is not needed)."""
+        if kwargs or len(args) != 2 or not M.is_intsort(args[1]):
+            raise M.Unsupported('ind_qtt_to_tt calling pattern')
+        i, q = _ivec(st, args[0], 'ind_qtt_to_tt'), Z(args[1])
+        conv = st.ghost.get('qtt_conv', [])
+        if len(conv) != 1:
+            raise M.Unsupported('ind_qtt_to_tt: the dimension of the original tensor is not known at this call')
+        d = conv[0]['d']
+        ex.oblige(st, 'call-pre', 'ind_qtt_to_tt: q >= 1, d*q binary digits',
+                  z3.And(q >= 1, Z(i.shape[0]) == T.mul_canon(d, q),
+                         z3.ForAll([c_], z3.Implies(z3.And(0 <= c_, c_ < Z(i.shape[0])), z3.And(0 <= i.t[c_], i.t[c_] <= 1)), patterns=[i.t[c_]])), node)
+        out, blk = ex.fresh('itt', IA), ex.fresh('digits', IM)
+        st.assume(z3.ForAll([c_], z3.Implies(z3.And(0 <= c_, c_ < d), z3.And(out[c_] == hval(blk[c_], 0, q), binary(blk[c_], q))), patterns=[out[c_]]))
+        res = X.ivec(d, out)
+        st.ghost['back'] = st.ghost.get('back', []) + [dict(arg=i, q=args[1], out=res)]
+        return res
+
+    return {'act_one.tt_to_qtt': call_tt_to_qtt, 'optima.optima_tt': call_optima_tt, 'grid.ind_qtt_to_tt': call_ind_qtt_to_tt, 'act_one.get': call_get_val}
+
+
+def hval_range_lemma(U, q):
+    """0 <= hval(a, 0, q) < 2^q for q binary digits: downward induction over the position (Horner form)."""
+    a = z3.Const('a', IA)
+    kk = z3.Int('kk')
+    AX = T.axioms('hval', 'pow2')
+    U.lemma('binary-value-of-q-digits-is-below-2^q.base', [q >= 0, binary(a, q)], z3.And(0 <= hval(a, q, q), hval(a, q, q) <= T.pow2(q - q) - 1), axioms=AX, kind='lemma-base')
+    U.lemma('binary-value-of-q-digits-is-below-2^q.step',
+            [q >= 0, binary(a, q), 0 <= kk, kk < q, 0 <= hval(a, kk + 1, q), hval(a, kk + 1, q) <= T.pow2(q - (kk + 1)) - 1, T.pow2(q - kk) >= 1],
+            z3.And(0 <= hval(a, kk, q), hval(a, kk, q) <= T.pow2(q - kk) - 1), axioms=AX, kind='lemma-step')
+    av = z3.Const('a!r', IA)
+    return z3.ForAll([av], z3.Implies(z3.And(q >= 0, binary(av, q)), z3.And(0 <= hval(av, 0, q), hval(av, 0, q) < T.pow2(q))), patterns=[hval(av, 0, q)])
+
+
+def _optima_qtt_unit(U, valid):
+    fn = U.func('optima', 'optima_qtt')
+    st = U.state()
+    Y, arr, d = S.tt_param(st, 'Y', z3.Int('d'))
+    k, q0 = z3.Ints('k q')
+    e, r = z3.Real('e'), z3.Real('r')
+
+    def qterm_of(s):
+        qv = s.vars.get('q')
+        if not M.is_intsort(qv):
+            raise M.Unsupported('optima_qtt: the local q is not an integer at the conversion')
+        return Z(qv)
+
+    def inv(ex, s, j):
+        n = s.vars.get('n')
+        if not (isinstance(n, VArr) and n.ndim == 1 and n.tag == 'ivec' and n.t is not None):
+            raise M.ContractMismatch('optima_qtt: n is not the shape vector inside the validation loop')
+        return [('mode-sizes-seen-so-far-equal-the-first', z3.ForAll([c_], z3.Implies(z3.And(1 <= c_, c_ <= j), n.t[c_] == n.t[0]), patterns=[n.t[c_]]))]
+
+    qx = z3.Int('qcode')                 # names int(log2 n) in the validation case (a definition in the precondition list)
+    rng = hval_range_lemma(U, q0 if valid else qx)
+    ex = U.executor(fn, loops={0: {'inv': inv}}, callees=_qtt_handlers(qterm_of), axioms=AXQT + [rng])
+    ex.opt = True
+    st.vars.update(Y=Y, k=k, e=e, r=r)
+    modes = z3.ForAll([c_], z3.Implies(z3.And(0 <= c_, c_ < d), T.d1(arr[c_]) == T.pow2(q0)), patterns=[arr[c_]])
+    if valid:
+        lem = lemma_log2_of_pow2(U, T.d1(arr[0]), q0)
+        pre = [T.wf(arr, d), k >= 1, e >= 0, r >= 0, q0 >= 1, modes, lem]
+    else:
+        pre = [T.wf(arr, d), k >= 1, e >= 0, r >= 0, z3.ForAll([c_], z3.Implies(z3.And(0 <= c_, c_ < d), T.d1(arr[c_]) >= 2), patterns=[arr[c_]]),
+               qx == log2_int(T.d1(arr[0])), qx >= 1]
+        # qx >= 1 is the lemma below (n >= 2 gives log2 n >= 1), proved from instances of the axioms of group 'pow2r' (quantifier-free)
+        n0 = T.d1(arr[0])
+        one = z3.RealVal(1)
+        U.lemma('int(log2 n) >= 1 for n >= 2', [n0 >= 2, qx == log2_int(n0), (z3.ToReal(z3.IntVal(1)) <= T.log2(z3.ToReal(n0))) == (T.pow2r(one) <= z3.ToReal(n0)),
+                                               T.pow2r(one) == 2 * T.pow2r(z3.RealVal(0)), T.pow2r(z3.RealVal(0)) == 1], qx >= 1, qf=True)
+    AX = ex.axioms
+    res = U.run(ex, st, pre=pre)
+    U.assumed.extend(['props.shape (unit props.shape)', 'act_one.tt_to_qtt (unit act_one.tt_to_qtt)', 'optima.optima_tt (units optima.optima_tt, optima.optima_tt.bounds)',
+                      'grid.ind_qtt_to_tt (unit grid.ind_qtt_to_tt.single)', 'act_one.get (unit act_one.get)'])
+    U.cover('precondition-satisfiable', U.pre, axioms=AX)
+    nret = 0
+    for p, o in res:
+        if o.kind == 'raise':
+            U.raise_iff('only-ValueError-is-raised', p, o.exc == 'ValueError')
+            if valid:
+                U.raise_iff('no-exception-for-power-of-two-shapes', p, False, axioms=AX)
+            else:
+                U.raise_iff('raised-only-if-the-mode-sizes-differ-or-the-common-size-is-not-2^int(log2 n)', p,
+                            z3.Not(z3.And(z3.ForAll([c_], z3.Implies(z3.And(0 <= c_, c_ < d), T.d1(arr[c_]) == T.d1(arr[0])), patterns=[arr[c_]]),
+                                          T.d1(arr[0]) == T.pow2(qx))), axioms=AX)
+            continue
+        nret += 1
+        v = o.value
+        ok = isinstance(v, VTuple) and len(v.items) == 4 and all(isinstance(v.items[j], VArr) and v.items[j].ndim == 1 for j in (0, 2)) \
+            and all(M.is_num(v.items[j]) for j in (1, 3))
+        U.post('returns-(i_min, y_min, i_max, y_max)', p, z3.BoolVal(ok))
+        if not ok:
+            continue
+        i_min, y_min, i_max, y_max = v.items
+        conv, search, back, gets = p.ghost.get('qtt_conv', []), p.ghost.get('search', []), p.ghost.get('back', []), p.ghost.get('get_calls', [])
+        qv = Z(p.vars['q'])
+        U.post('a-return-means: all mode sizes equal 2^q with q = int(log2 n)', p,
+               z3.Implies(z3.And(0 <= c_, c_ < d), T.d1(arr[c_]) == T.pow2(qv)), axioms=AX)
+        okc = len(conv) == 1 and len(search) == 1 and len(back) == 2 and len(gets) == 2
+        U.post('one-conversion-one-search-two-index-conversions-two-evaluations', p, z3.BoolVal(okc))
+        if not okc:
+            continue
+        U.post('conversion-of-the-given-tensor-with-the-caller-s-accuracy-and-rank-cap', p,
+               z3.And(z3.BoolVal(z3.eq(conv[0]['Y'].arr, arr)), conv[0]['e'] == e, conv[0]['r'] == r))
+        U.post('search-on-the-converted-tensor-with-the-caller-s-k', p, z3.BoolVal(z3.eq(search[0]['Z'].arr, conv[0]['out']) and search[0]['k'] is k))
+        outs = (back[0]['out'], back[1]['out'])
+        U.post('both-found-indices-are-mapped-back-with-q = int(log2 n), and these two are what is returned (in either order)', p,
+               z3.And(z3.BoolVal(back[0]['arg'] is search[0]['out'][0] and back[1]['arg'] is search[0]['out'][1]
+                                 and ((i_min is outs[0] and i_max is outs[1]) or (i_min is outs[1] and i_max is outs[0]))),
+                      Z(back[0]['q']) == qv, Z(back[1]['q']) == qv))
+        U.post('the-two-evaluations-are-get(Y, .) on the tensor the caller passed, at the two mapped-back indices', p,
+               z3.BoolVal(all(z3.eq(g[0].arr, arr) for g in gets) and gets[0][1] is outs[0] and gets[1][1] is outs[1]))
+        for nm, i, y in (('minimum', i_min, y_min), ('maximum', i_max, y_max)):
+            U.post(f'index-of-the-{nm}-has-length-d-and-lies-inside-the-bounds-of-the-ORIGINAL-tensor', p,
+                   z3.And(Z(i.shape[0]) == d, z3.Implies(z3.And(0 <= c_, c_ < d), z3.And(0 <= i.t[c_], i.t[c_] < T.d1(arr[c_])))), axioms=AX)
+            U.post(f'reported-{nm}-is-the-entry-of-the-tensor-the-caller-passed-at-the-returned-index', p, Z(y) == tt_val(arr, i.t, d), axioms=AX)
+        U.post('reported-minimum-does-not-exceed-reported-maximum', p, Z(y_min) <= Z(y_max), axioms=AX)
+        U.canary('canary-the-reported-values-are-those-of-the-QTT-approximation', p, Z(y_min) == tt_val(search[0]['Z'].arr, search[0]['out'][0].t, search[0]['Z'].n), axioms=AX)
+    if valid:
+        U.post('a-return-path-exists', U.pre, z3.BoolVal(nret >= 1))
+    else:
+        U.post('validation-can-fail-and-can-pass', U.pre, z3.BoolVal(nret >= 1 and any(o.kind == 'raise' for _, o in res)))
+
+
+@unit('optima.optima_qtt.power_of_two', props=('C15',))
+def u_qtt_ok(U):
+    _optima_qtt_unit(U, True)
+
+
+@unit('optima.optima_qtt.validation', props=('C15',))
+def u_qtt_any(U):
+    _optima_qtt_unit(U, False)
